@@ -28,6 +28,8 @@ CONSTANTS
   Log <- %(log)s
   Depth = %(depth)d
   SetupAddrs = {%(setup)s}
+  MaxHandles = %(handles)d
+  HChanges <- %(hchanges)s
 %(rest)s
 CHECK_DEADLOCK FALSE
 """
@@ -64,7 +66,7 @@ def write(sd, name, text):
 
 def acc_cfg(sd, name, **kw):
     d = dict(spec="Spec", addr=q("A", "B"), code=q("c1"), skey=q("k1"), sval=q("v1"), changes="ChMixed", defects="",
-             log="LogLast", depth=4, rest="", setup=q("A"))
+             log="LogLast", depth=4, rest="", setup=q("A"), handles=0, hchanges="HCode")
     d.update(kw)
     return write(sd, name, ACC_CFG % d)
 
@@ -179,8 +181,9 @@ def run_accounts(ctx):
     qk = ctx.quick
     c06 = ctx.prop == "C06"
     ctx.assume(
-        "account objects are used in the load-modify-save discipline (one Save step = LoadAccount, setters, "
-        "SaveKeyValue, SaveAccount); stale account objects are outside the specification",
+        "Save = LoadAccount, setters, SaveKeyValue, SaveAccount on a fresh object; Load/SaveH = account objects kept by the "
+        "caller (up to 2 per address) and saved later, also when stale (after a revert or a save through another "
+        "object); kept objects are used without storage writes",
         "JournalLen is observed at every call boundary; snapshots are call boundaries; a snapshot is invalidated by "
         "reverting below it or by Commit",
         "identifiers (addresses, code, keys, values, owner, metadata) are concretised by a fixed injective map; blake2b "
@@ -208,6 +211,9 @@ def run_accounts(ctx):
               ("r1-mixed.cfg", dict(depth=3 if qk else 4)),
               ("r1-code-storage.cfg", dict(addr=q("A", "B"), code=q("c1"), skey=q("k1"), sval=q("v1"),
                                            changes="ChCodeSto", depth=3 if qk else 4))]
+        # kept account objects (handles) saved after reverts / after saves through other objects
+        r1.append(("r1-handles.cfg", dict(spec="HandleSpec", addr=q("A", "B"), code=q("c1", "c2"), skey="", sval="",
+                                          changes="ChCodeSet", handles=2, hchanges="HCode", depth=4 if qk else 5)))
         if not qk:
             r1.append(("r1-code-deep.cfg", dict(addr=q("A", "B"), code=q("c1", "c2"), skey="", sval="",
                                                 changes="ChCode", depth=5)))
@@ -237,6 +243,19 @@ def run_accounts(ctx):
         ctx.cov(deviation_counterexample_steps=d.depth, deviation_reproduced_on_code=bool(rr.violations),
                 deviation_not_present_in_code=int(rr.stats.get("drifted", 0)) > 0 and not rr.violations)
 
+    if not c06:
+        # second named deviation: a stale kept object that never called SetCode overwrites the leaf's code hash
+        acc_cfg(sd, "dev2.cfg", spec="GenHandleSpec", addr=q("A"), code=q("c1"), skey="", sval="", changes="ChCodeSet",
+                handles=1, hchanges="HCode", defects=q("stale-code-hash-overwrite"), log="LogAppend", depth=4,
+                rest="VIEW cvars\nINVARIANTS EmitViolationC07")
+        cex2 = ctx.path("deviation2.ndjson")
+        d2 = ctx.tlc(sd, "MC_Accounts", "dev2.cfg", timeout=900, behaviours_out=cex2, count=False, allow=("invariant",))
+        if d2.error != "invariant:EmitViolationC07" or d2.behaviours == 0:
+            ctx.broken.append("R1 with KnownDefects={stale-code-hash-overwrite} did not produce a counterexample (%s)" % d2.error)
+        else:
+            rr2 = replay(ctx, exe, "replay", cex2, count=False)
+            ctx.cov(stale_object_deviation_reproduced_on_code=bool(rr2.violations))
+
     # ---- R2a: transition cover of small configurations (one behaviour per transition of the state graph)
     if c06:
         gens = [("gen-storage.cfg", dict(spec="GenCoreSpec", addr=q("A"), code="", skey=q("k1"), sval=q("v1"),
@@ -254,6 +273,9 @@ def run_accounts(ctx):
                                       changes="ChCode", depth=5)),
                 ("gen-code-storage.cfg", dict(spec="GenCoreSpec", addr=q("A", "B"), code=q("c1"), skey=q("k1"), sval=q("v1"),
                                               changes="ChCodeSto", depth=4))]
+        # kept objects: account A through 2 kept objects and fresh calls, B through fresh calls (shares the codes)
+        gens.append(("gen-handles.cfg", dict(spec="GenHandleSpec", addr=q("A", "B"), code=q("c1", "c2"), skey="", sval="",
+                                             changes="ChCodeSet", handles=2, hchanges="HCode", depth=5 if qk else 6)))
         if not qk:
             gens.append(("gen-code-3.cfg", dict(spec="GenCoreSpec", addr=q("A", "B", "C"), code=q("c1", "c2"), skey="",
                                                 sval="", changes="ChCode", depth=4)))
@@ -274,6 +296,14 @@ def run_accounts(ctx):
     sim = ctx.path("sim.ndjson")
     ctx.tlc(sd, "MC_Accounts", "sim.cfg", simulate=150 if qk else 1500, depth=16, timeout=1500, behaviours_out=sim)
     replay(ctx, exe, "replay", sim)
+
+    if not c06:
+        # walks with kept objects (3 accounts, 2 codes, 2 objects per account, no storage)
+        acc_cfg(sd, "sim-handles.cfg", spec="SimHandleSpec", addr=q("A", "B", "C"), code=q("c1", "c2"), skey="", sval="",
+                changes="ChCode", handles=2, hchanges="HAll", log="LogAppend", depth=14, rest="ACTION_CONSTRAINT EmitFull")
+        simh = ctx.path("sim-handles.ndjson")
+        ctx.tlc(sd, "MC_Accounts", "sim-handles.cfg", simulate=100 if qk else 1000, depth=14, timeout=1500, behaviours_out=simh)
+        replay(ctx, exe, "replay", simh)
 
     # ---- R3: random histories on the real AccountsDB (6 accounts, 3 codes, 4 keys; removal followed by re-creation
     # favoured) -> TLC evaluates the property on every observed state (Obs_Accounts.tla, no implementation model);
